@@ -38,7 +38,7 @@ var nonNilResult = []string{"fmt.Errorf", "errors.New", "github.com/0chain/commo
 	"0chain.net/core/common.NewErrInternal", "0chain.net/core/common.NewErrBadRequest", "0chain.net/core/common.NewErrNoResource"}
 
 // deterministic (result is an uninterpreted function of the arguments)
-var deterministicPrefixes = []string{"fmt.Sprintf", "fmt.Sprint", "strconv.", "strings.", "0chain.net/core/encryption.Hash", "0chain.net/core/common.TimeToString",
+var deterministicPrefixes = []string{"fmt.Sprintf", "fmt.Sprint", "strconv.", "strings.", "0chain.net/core/encryption.Hash", "0chain.net/core/common.TimeToString", "github.com/0chain/common/core/currency.ParseZCN",
 	"0chain.net/core/encryption.RawHash", "encoding/hex.EncodeToString", "math.", "math/bits.", "(time.Duration).", "(0chain.net/core/common.Timestamp)."}
 
 func hasAnyPrefix(s string, ps []string) bool {
